@@ -264,6 +264,12 @@ impl SetRun {
                 if s1 != dm || s2 != dm {
                     fail!("C02", self, "set Debug {:?} / {:?} differs from the rendering of its iteration {:?}", s1, s2, dm);
                 }
+                let want = debug_renderings(&D(s, &g));
+                for (facade, got) in [("HashSet", debug_renderings(s)), ("with_guard()", debug_renderings(&s.with_guard(&g))), ("pin()", debug_renderings(&s.pin()))] {
+                    if let Some(i) = (0..want.len()).find(|i| got[*i] != want[*i]) {
+                        fail!("C02", self, "Debug of {} under format specification #{} prints {:?}, the debug-set rendering of its iteration under the same specification is {:?}", facade, i, got[i], want[i]);
+                    }
+                }
             }
             Op::Relations(idxs) => {
                 if !chk {
